@@ -152,7 +152,7 @@ class Pipeline:
                 axes.append(list(range(d[1])))
                 weights.append([1.0] * d[1])
             else:
-                t, w = ref.gauss_legendre(gl_nodes, -10.5, 10.5)
+                t, w = ref.gauss_legendre_2d() if ncont == 2 else ref.gauss_legendre(gl_nodes, -10.5, 10.5)
                 axes.append(list(t))
                 weights.append(list(w))
         total = None
